@@ -2,6 +2,8 @@ import MD.Proofs.ScoreHES
 import MD.Proofs.ScoreHQS
 import MD.Proofs.QuantStage
 import MD.Proofs.ExpectileInst
+import Mathlib.Analysis.SpecialFunctions.Pow.Deriv
+import Mathlib.Analysis.Calculus.Deriv.Slope
 import Mathlib.Tactic.Linarith
 import Mathlib.Tactic.Ring
 import Mathlib.Tactic.FieldSimp
@@ -590,5 +592,699 @@ theorem cons_scoreMean_none (k : ScoreKind) (h α : ℝ) (ys zs : List ℝ) :
   | ok per =>
     rw [cons_scoreMean_bind _ _ _ _ _ _ per e, cons_scoreMean_bind _ _ _ _ _ _ per e,
       cons_average_none, (cons_scorePerObs_length e).1]
+
+/-! ### homogeneity of the expectile family -/
+
+theorem cons_sgn_mul {c x : ℝ} (hc : 0 < c) : sgn (c * x) = sgn x := by
+  rcases lt_trichotomy x 0 with hx | hx | hx
+  · rw [sgn_of_neg hx, sgn_of_neg (mul_neg_of_pos_of_neg hc hx)]
+  · subst hx; simp [sgn]
+  · rw [sgn_of_pos hx, sgn_of_pos (mul_pos hc hx)]
+
+theorem cons_abs_mul_rpow {c : ℝ} (hc : 0 < c) (x p : ℝ) : |c * x| ^ p = c ^ p * |x| ^ p := by
+  rw [abs_mul, abs_of_pos hc, Real.mul_rpow hc.le (abs_nonneg x)]
+
+theorem cons_hesDom_mul {h c y z : ℝ} (hc : 0 < c) : hesDom h (c * y) (c * z) ↔ hesDom h y z := by
+  unfold hesDom
+  split_ifs
+  · rfl
+  · rw [mul_nonneg_iff_of_pos_left hc, mul_pos_iff_of_pos_left hc]
+  · rw [mul_pos_iff_of_pos_left hc, mul_pos_iff_of_pos_left hc]
+
+theorem cons_hesDom_nonneg {h y z : ℝ} (h1 : ¬ 1 < h) (d : hesDom h y z) : 0 ≤ y ∧ 0 < z := by
+  unfold hesDom at d
+  rw [if_neg h1] at d
+  split_ifs at d
+  · exact d
+  · exact ⟨d.1.le, d.2⟩
+
+theorem cons_hesAsym_mul {α c y z : ℝ} (hc : 0 < c) : hesAsym α (c * y) (c * z) = hesAsym α y z := by
+  unfold hesAsym
+  rw [geInd_mul hc]
+
+theorem cons_hesBase_mul {h c y z : ℝ} (hc : 0 < c) (d : hesDom h y z) :
+    hesBase h (c * y) (c * z) = c ^ h * hesBase h y z := by
+  unfold hesBase
+  by_cases h2 : h = 2
+  · subst h2
+    simp only [if_true]
+    rw [Real.rpow_two]; ring
+  rw [if_neg h2, if_neg h2]
+  have e : c ^ h = c ^ (h - 1) * c := by
+    rw [Real.rpow_sub_one hc.ne']; field_simp
+  by_cases h1 : 1 < h
+  · rw [if_pos h1, if_pos h1, cons_sgn_mul hc, cons_abs_mul_rpow hc, cons_abs_mul_rpow hc,
+      cons_abs_mul_rpow hc, e]
+    ring
+  rw [if_neg h1, if_neg h1]
+  obtain ⟨hy, hz⟩ := cons_hesDom_nonneg h1 d
+  by_cases e1 : h = 1
+  · subst e1
+    simp only [if_true]
+    rw [xlogy_real, xlogy_real, mul_div_mul_left _ _ hc.ne', Real.rpow_one]; ring
+  rw [if_neg e1, if_neg e1]
+  by_cases e0 : h = 0
+  · subst e0
+    simp only [if_true]
+    rw [mul_div_mul_left _ _ hc.ne', Real.rpow_zero, one_mul]
+  rw [if_neg e0, if_neg e0, Real.mul_rpow hc.le hy, Real.mul_rpow hc.le hz.le,
+    Real.mul_rpow hc.le hz.le, e]
+  ring
+
+/-! ### the degrees `1` and `0` as limits of the general formula -/
+
+section Limits
+open Filter Topology
+
+/-- numerator of the general base score: `hesBase h y z = 2 N(h) / (h (h − 1))` -/
+noncomputable def cons_N (y z h : ℝ) : ℝ := y ^ h - z ^ h - h * z ^ h * ((y - z) / z)
+
+theorem cons_N_hasDerivAt {y z : ℝ} (hy : 0 < y) (hz : 0 < z) (h₀ : ℝ) :
+    HasDerivAt (cons_N y z)
+      (y ^ h₀ * Real.log y - z ^ h₀ * Real.log z
+        - (1 * z ^ h₀ + h₀ * (z ^ h₀ * Real.log z)) * ((y - z) / z)) h₀ := by
+  have dy := (Real.hasStrictDerivAt_const_rpow hy h₀).hasDerivAt
+  have dz := (Real.hasStrictDerivAt_const_rpow hz h₀).hasDerivAt
+  have := (dy.sub dz).sub (((hasDerivAt_id h₀).mul dz).mul_const ((y - z) / z))
+  exact this
+
+
+theorem cons_hesBase_general {h y z : ℝ} (hy : 0 < y) (hz : 0 < z) (h0 : h ≠ 0) (h1 : h ≠ 1)
+    (h2 : h ≠ 2) : hesBase h y z = 2 * cons_N y z h / (h * (h - 1)) := by
+  have hh1 : h - 1 ≠ 0 := sub_ne_zero.2 h1
+  unfold hesBase cons_N
+  rw [if_neg h2]
+  by_cases hgt : 1 < h
+  · rw [if_pos hgt, abs_of_pos hy, abs_of_pos hz, sgn_of_pos hz, Real.rpow_sub_one hz.ne']
+    field_simp
+  · rw [if_neg hgt, if_neg h1, if_neg h0, Real.rpow_sub_one hz.ne']
+    field_simp
+
+theorem cons_N_one (y : ℝ) {z : ℝ} (hz : 0 < z) : cons_N y z 1 = 0 := by
+  unfold cons_N
+  rw [Real.rpow_one, Real.rpow_one]
+  field_simp
+  ring
+
+theorem cons_N_zero (y z : ℝ) : cons_N y z 0 = 0 := by
+  unfold cons_N
+  simp
+
+/-- degree `h → 1`: the general base score tends to the Poisson deviance -/
+theorem cons_limit_degree_one {y z : ℝ} (hy : 0 < y) (hz : 0 < z) :
+    Tendsto (fun h => hesBase h y z) (𝓝[≠] 1) (𝓝 (hesBase 1 y z)) := by
+  have hd := (cons_N_hasDerivAt hy hz 1).tendsto_slope
+  have h2 : Tendsto (fun h : ℝ => 2 / h) (𝓝[≠] 1) (𝓝 (2 / 1)) :=
+    ((continuousAt_const.div continuousAt_id one_ne_zero).tendsto).mono_left nhdsWithin_le_nhds
+  have hm := h2.mul hd
+  have hval : 2 / 1 * (y ^ (1 : ℝ) * Real.log y - z ^ (1 : ℝ) * Real.log z
+        - (1 * z ^ (1 : ℝ) + 1 * (z ^ (1 : ℝ) * Real.log z)) * ((y - z) / z)) = hesBase 1 y z := by
+    unfold hesBase
+    rw [if_neg (by norm_num), if_neg (lt_irrefl _), if_pos rfl, xlogy_real,
+      Real.log_div hy.ne' hz.ne', Real.rpow_one, Real.rpow_one]
+    field_simp
+    ring
+  rw [hval] at hm
+  refine hm.congr' ?_
+  have hI : Set.Ioo (0 : ℝ) 2 ∈ 𝓝 (1 : ℝ) := Ioo_mem_nhds (by norm_num) (by norm_num)
+  filter_upwards [nhdsWithin_le_nhds hI, self_mem_nhdsWithin] with h hIoo hne
+  have hne1 : h ≠ 1 := hne
+  have hne0 : h ≠ 0 := hIoo.1.ne'
+  have hne2 : h ≠ 2 := hIoo.2.ne
+  rw [cons_hesBase_general hy hz hne0 hne1 hne2, slope_def_field, cons_N_one y hz]
+  have : h - 1 ≠ 0 := sub_ne_zero.2 hne1
+  field_simp
+  ring
+
+/-- degree `h → 0`: the general base score tends to the Gamma deviance -/
+theorem cons_limit_degree_zero {y z : ℝ} (hy : 0 < y) (hz : 0 < z) :
+    Tendsto (fun h => hesBase h y z) (𝓝[≠] 0) (𝓝 (hesBase 0 y z)) := by
+  have hd := (cons_N_hasDerivAt hy hz 0).tendsto_slope
+  have h2 : Tendsto (fun h : ℝ => 2 / (h - 1)) (𝓝[≠] 0) (𝓝 (2 / (0 - 1))) :=
+    ((continuousAt_const.div (continuousAt_id.sub continuousAt_const)
+      (by norm_num)).tendsto).mono_left nhdsWithin_le_nhds
+  have hm := h2.mul hd
+  have hval : 2 / (0 - 1) * (y ^ (0 : ℝ) * Real.log y - z ^ (0 : ℝ) * Real.log z
+        - (1 * z ^ (0 : ℝ) + 0 * (z ^ (0 : ℝ) * Real.log z)) * ((y - z) / z)) = hesBase 0 y z := by
+    unfold hesBase
+    rw [if_neg (by norm_num), if_neg (by norm_num), if_neg (by norm_num), if_pos rfl,
+      Real.log_div hy.ne' hz.ne', Real.rpow_zero, Real.rpow_zero]
+    field_simp
+    ring
+  rw [hval] at hm
+  refine hm.congr' ?_
+  have hI : Set.Ioo (-1 : ℝ) 1 ∈ 𝓝 (0 : ℝ) := Ioo_mem_nhds (by norm_num) (by norm_num)
+  filter_upwards [nhdsWithin_le_nhds hI, self_mem_nhdsWithin] with h hIoo hne
+  have hne0 : h ≠ 0 := hne
+  have hne1 : h ≠ 1 := hIoo.2.ne
+  have hne2 : h ≠ 2 := by have := hIoo.2; intro e; rw [e] at this; norm_num at this
+  rw [cons_hesBase_general hy hz hne0 hne1 hne2, slope_def_field, cons_N_zero, sub_zero, sub_zero]
+  have : h - 1 ≠ 0 := sub_ne_zero.2 hne1
+  field_simp
+
+/-- degree `h → 0` in the quantile family: `(z^h − y^h)/h → log z − log y` -/
+theorem cons_limit_gfun_zero {y z : ℝ} (hy : 0 < y) (hz : 0 < z) :
+    Tendsto (fun h => gfun h z - gfun h y) (𝓝[≠] 0) (𝓝 (Real.log z - Real.log y)) := by
+  have dy := (Real.hasStrictDerivAt_const_rpow hy 0).hasDerivAt
+  have dz := (Real.hasStrictDerivAt_const_rpow hz 0).hasDerivAt
+  have hd := (dz.sub dy).tendsto_slope
+  rw [Real.rpow_zero, Real.rpow_zero, one_mul, one_mul] at hd
+  refine hd.congr' ?_
+  have hI : Set.Ioo (-1 : ℝ) 1 ∈ 𝓝 (0 : ℝ) := Ioo_mem_nhds (by norm_num) (by norm_num)
+  filter_upwards [nhdsWithin_le_nhds hI, self_mem_nhdsWithin] with h hIoo hne
+  have hne0 : h ≠ 0 := hne
+  have hne1 : h ≠ 1 := hIoo.2.ne
+  rw [gfun_of_ne hne1 hne0, gfun_of_ne hne1 hne0, slope_def_field]
+  simp only [Pi.sub_apply, Real.rpow_zero, sub_self, sub_zero]
+  field_simp
+
+end Limits
+
+/-! ### sample-level consistency and order sensitivity -/
+
+theorem cons_mean_consistent (h : ℝ) {d : List (Obs ℝ)} (hne : d ≠ []) (hpos : ∀ o ∈ d, 0 < o.2)
+    (c : ℝ) (dm : ∀ o ∈ d, hesDom h o.1 (wmean d)) (dc : ∀ o ∈ d, hesDom h o.1 c) :
+    cons_total (hesVal h (1 / 2)) d (wmean d) ≤ cons_total (hesVal h (1 / 2)) d c := by
+  rw [cons_mean_identity h hne hpos c]
+  have := mul_nonneg (wsum_pos hne hpos).le (mul_nonneg (by norm_num : (0 : ℝ) ≤ 2)
+    (hesBreg_nonneg (cons_hesDom_consts hne dm dc)))
+  linarith
+
+theorem cons_expectile_consistent {h α : ℝ} {d : List (Obs ℝ)} (hα0 : 0 < α) (hα1 : α < 1)
+    (hne : d ≠ []) (hpos : ∀ o ∈ d, 0 < o.2) (c : ℝ)
+    (dt : ∀ o ∈ d, hesDom h o.1 (expectile α d)) (dc : ∀ o ∈ d, hesDom h o.1 c) :
+    cons_total (hesVal h α) d (expectile α d) ≤ cons_total (hesVal h α) d c := by
+  have := cons_expectile_total_diff d hα0 hα1 (fun o ho => (hpos o ho).le) dt dc
+  rw [eSum_expectile α hα0 hα1 d hne hpos, zero_mul] at this
+  linarith
+
+/-- a forecast between the expectile and another forecast is never worse than the latter -/
+theorem cons_expectile_better {h α c₁ c₂ : ℝ} {d : List (Obs ℝ)} (hα0 : 0 < α) (hα1 : α < 1)
+    (hne : d ≠ []) (hpos : ∀ o ∈ d, 0 < o.2)
+    (d1 : ∀ o ∈ d, hesDom h o.1 c₁) (d2 : ∀ o ∈ d, hesDom h o.1 c₂)
+    (hord : (expectile α d ≤ c₁ ∧ c₁ ≤ c₂) ∨ (c₂ ≤ c₁ ∧ c₁ ≤ expectile α d)) :
+    cons_total (hesVal h α) d c₁ ≤ cons_total (hesVal h α) d c₂ := by
+  have key := cons_expectile_total_diff d hα0 hα1 (fun o ho => (hpos o ho).le) d1 d2
+  have r := eSum_expectile α hα0 hα1 d hne hpos
+  have d12 := cons_hesDom_consts hne d1 d2
+  have d21 := cons_hesDom_consts hne d2 d1
+  rcases hord with ⟨a, b⟩ | ⟨a, b⟩
+  · have m := eSum_mono α hα0 hα1 d hpos a
+    rw [r] at m
+    have p := hesPhi'_mono d12 d21 b
+    have := mul_nonneg m (by linarith : (0 : ℝ) ≤ 4 * (hesPhi' h c₂ - hesPhi' h c₁))
+    linarith
+  · have m := eSum_mono α hα0 hα1 d hpos b
+    rw [r] at m
+    have p := hesPhi'_mono d21 d12 a
+    have := mul_nonneg_of_nonpos_of_nonpos m
+      (by linarith : 4 * (hesPhi' h c₂ - hesPhi' h c₁) ≤ (0 : ℝ))
+    linarith
+
+theorem cons_half_level : (0 : ℝ) < 1 / 2 ∧ (1 / 2 : ℝ) < 1 := by constructor <;> norm_num
+
+theorem cons_mean_better {h c₁ c₂ : ℝ} {d : List (Obs ℝ)}
+    (hne : d ≠ []) (hpos : ∀ o ∈ d, 0 < o.2)
+    (d1 : ∀ o ∈ d, hesDom h o.1 c₁) (d2 : ∀ o ∈ d, hesDom h o.1 c₂)
+    (hord : (wmean d ≤ c₁ ∧ c₁ ≤ c₂) ∨ (c₂ ≤ c₁ ∧ c₁ ≤ wmean d)) :
+    cons_total (hesVal h (1 / 2)) d c₁ ≤ cons_total (hesVal h (1 / 2)) d c₂ := by
+  rw [← expectile_half d hne hpos] at hord
+  exact cons_expectile_better cons_half_level.1 cons_half_level.2 hne hpos d1 d2 hord
+
+theorem cons_quantile_consistent {h α t c : ℝ} (d : List (Obs ℝ)) (hw : ∀ o ∈ d, 0 ≤ o.2)
+    (dt : ∀ o ∈ d, hqsDom h o.1 t) (dc : ∀ o ∈ d, hqsDom h o.1 c)
+    (hlo : (d.map (fun o => o.2 * ((if o.1 < t then (1 : ℝ) else 0) - α))).sum ≤ 0)
+    (hhi : 0 ≤ (d.map (fun o => o.2 * ((if o.1 ≤ t then (1 : ℝ) else 0) - α))).sum) :
+    cons_total (hqsVal h α) d t ≤ cons_total (hqsVal h α) d c := by
+  by_cases hne : d = []
+  · subst hne; simp [cons_total]
+  have dtc := cons_hqsDom_consts hne dt dc
+  rcases le_total t c with htc | hct
+  · have k := cons_quantile_total_up (α := α) d hw dt dc htc
+    have g := gfun_le dtc htc
+    have := mul_nonneg hhi (by linarith : (0 : ℝ) ≤ gfun h c - gfun h t)
+    linarith
+  · have k := cons_quantile_total_dn (α := α) d hw dt dc hct
+    have g := gfun_le (hqsDom_symm dtc) hct
+    have := mul_nonneg_of_nonpos_of_nonpos hlo (by linarith : gfun h c - gfun h t ≤ (0 : ℝ))
+    linarith
+
+theorem cons_quantile_better {h α t c₁ c₂ : ℝ} (d : List (Obs ℝ)) (hw : ∀ o ∈ d, 0 ≤ o.2)
+    (d1 : ∀ o ∈ d, hqsDom h o.1 c₁) (d2 : ∀ o ∈ d, hqsDom h o.1 c₂)
+    (hlo : (d.map (fun o => o.2 * ((if o.1 < t then (1 : ℝ) else 0) - α))).sum ≤ 0)
+    (hhi : 0 ≤ (d.map (fun o => o.2 * ((if o.1 ≤ t then (1 : ℝ) else 0) - α))).sum)
+    (hord : (t ≤ c₁ ∧ c₁ ≤ c₂) ∨ (c₂ ≤ c₁ ∧ c₁ ≤ t)) :
+    cons_total (hqsVal h α) d c₁ ≤ cons_total (hqsVal h α) d c₂ := by
+  by_cases hne : d = []
+  · subst hne; simp [cons_total]
+  have d12 := cons_hqsDom_consts hne d1 d2
+  rcases hord with ⟨a, b⟩ | ⟨a, b⟩
+  · have k := cons_quantile_total_up (α := α) d hw d1 d2 b
+    have g := gfun_le d12 b
+    have m := cons_qsumLe_mono (α := α) d hw a
+    have := mul_nonneg (le_trans hhi m) (by linarith : (0 : ℝ) ≤ gfun h c₂ - gfun h c₁)
+    linarith
+  · have k := cons_quantile_total_dn (α := α) d hw d1 d2 a
+    have g := gfun_le (hqsDom_symm d12) a
+    have m := cons_qsumLt_mono (α := α) d hw b
+    have := mul_nonneg_of_nonpos_of_nonpos (le_trans m hlo)
+      (by linarith : gfun h c₂ - gfun h c₁ ≤ (0 : ℝ))
+    linarith
+
+/-- unit weights: every point of `[qLower, qUpper]` satisfies the two counting conditions -/
+theorem cons_quantile_interval_unit {α t : ℝ} (hα0 : 0 < α) (hα1 : α < 1) {d : List (Obs ℝ)}
+    (hne : d ≠ []) (h1 : ∀ o ∈ d, o.2 = 1) (hl : qLower α d ≤ t) (hu : t ≤ qUpper α d) :
+    (d.map (fun o => o.2 * ((if o.1 < t then (1 : ℝ) else 0) - α))).sum ≤ 0 ∧
+    0 ≤ (d.map (fun o => o.2 * ((if o.1 ≤ t then (1 : ℝ) else 0) - α))).sum := by
+  rw [cons_qsumLt_unit α d h1, cons_qsumLe_unit α d h1]
+  have a := cntLt_le_of_le_qUpper α hα0 d hne t hu
+  have b := cntLe_ge_of_qLower_le α hα1 d hne t hl
+  constructor <;> linarith
+
+theorem cons_logloss_consistent {d : List (Obs ℝ)} (hne : d ≠ []) (hpos : ∀ o ∈ d, 0 < o.2)
+    (c : ℝ) (hm0 : 0 < wmean d) (hm1 : wmean d < 1) (hc0 : 0 < c) (hc1 : c < 1) :
+    cons_total logLoss d (wmean d) ≤ cons_total logLoss d c := by
+  rw [cons_logloss_identity hne hpos c hm0 hm1 hc0 hc1]
+  have := mul_nonneg (wsum_pos hne hpos).le (cons_logLoss_nonneg hm0.le hm1.le hc0 hc1)
+  linarith
+
+theorem cons_logloss_better {d : List (Obs ℝ)} (hne : d ≠ []) (hpos : ∀ o ∈ d, 0 < o.2)
+    (c₁ c₂ : ℝ) (hm0 : 0 < wmean d) (hm1 : wmean d < 1) (h10 : 0 < c₁) (h11 : c₁ < 1)
+    (h20 : 0 < c₂) (h21 : c₂ < 1)
+    (hord : (wmean d ≤ c₁ ∧ c₁ ≤ c₂) ∨ (c₂ ≤ c₁ ∧ c₁ ≤ wmean d)) :
+    cons_total logLoss d c₁ ≤ cons_total logLoss d c₂ := by
+  rw [cons_logloss_identity hne hpos c₁ hm0 hm1 h10 h11,
+    cons_logloss_identity hne hpos c₂ hm0 hm1 h20 h21]
+  have m : logLoss (wmean d) c₁ ≤ logLoss (wmean d) c₂ := by
+    apply logLoss_mono hm0.le hm1.le h10 h11 h20 h21
+    rcases hord with ⟨a, b⟩ | ⟨a, b⟩
+    · exact mul_nonneg (by linarith) (by linarith)
+    · exact mul_nonneg_of_nonpos_of_nonpos (by linarith) (by linarith)
+  have := mul_le_mul_of_nonneg_left m (wsum_pos hne hpos).le
+  linarith
+
+theorem cons_wysum_pos {d : List (Obs ℝ)} (hne : d ≠ []) (hpos : ∀ o ∈ d, 0 < o.2)
+    (hy : ∀ o ∈ d, 0 < o.1) : 0 < wysum d := by
+  induction d with
+  | nil => exact absurd rfl hne
+  | cons o d ih =>
+    have h1 := mul_pos (hy o (by simp)) (hpos o (by simp))
+    by_cases hd : d = []
+    · subst hd; simpa [wysum] using h1
+    · have := ih hd (fun o' ho' => hpos o' (by simp [ho'])) (fun o' ho' => hy o' (by simp [ho']))
+      simp only [wysum, List.map_cons, List.sum_cons] at *
+      linarith
+
+theorem cons_wmean_pos {d : List (Obs ℝ)} (hne : d ≠ []) (hpos : ∀ o ∈ d, 0 < o.2)
+    (hy : ∀ o ∈ d, 0 < o.1) : 0 < wmean d :=
+  div_pos (cons_wysum_pos hne hpos hy) (wsum_pos hne hpos)
+
+
+/-! ### log loss at the boundary means `0`, `1` -/
+
+theorem cons_sum_wf_nonneg (f : Obs ℝ → ℝ) {d : List (Obs ℝ)} (hpos : ∀ o ∈ d, 0 < o.2)
+    (hf : ∀ o ∈ d, 0 ≤ f o) : 0 ≤ (d.map (fun o => o.2 * f o)).sum := by
+  apply List.sum_nonneg
+  intro x hx
+  obtain ⟨o, ho, rfl⟩ := List.mem_map.1 hx
+  exact mul_nonneg (hpos o ho).le (hf o ho)
+
+theorem cons_all_zero_of_sum_zero (f : Obs ℝ → ℝ) {d : List (Obs ℝ)} (hpos : ∀ o ∈ d, 0 < o.2)
+    (hf : ∀ o ∈ d, 0 ≤ f o) (h0 : (d.map (fun o => o.2 * f o)).sum = 0) : ∀ o ∈ d, f o = 0 := by
+  induction d with
+  | nil => intro o ho; simp at ho
+  | cons a d ih =>
+    have hpos' : ∀ o ∈ d, 0 < o.2 := fun o ho => hpos o (by simp [ho])
+    have hf' : ∀ o ∈ d, 0 ≤ f o := fun o ho => hf o (by simp [ho])
+    have r := cons_sum_wf_nonneg f hpos' hf'
+    have a0 := mul_nonneg (hpos a (by simp)).le (hf a (by simp))
+    rw [List.map_cons, List.sum_cons] at h0
+    have e1 : a.2 * f a = 0 := by linarith
+    have e2 : (d.map (fun o => o.2 * f o)).sum = 0 := by linarith
+    intro o ho
+    rcases List.mem_cons.1 ho with rfl | ho
+    · rcases mul_eq_zero.1 e1 with h | h
+      · exact absurd h (hpos o (by simp)).ne'
+      · exact h
+    · exact ih hpos' hf' e2 o ho
+
+/-- a weighted mean that bounds all observations from one side equals all of them -/
+theorem cons_all_eq_mean_of_sign {d : List (Obs ℝ)} (hne : d ≠ []) (hpos : ∀ o ∈ d, 0 < o.2)
+    (hs : (∀ o ∈ d, wmean d ≤ o.1) ∨ (∀ o ∈ d, o.1 ≤ wmean d)) : ∀ o ∈ d, o.1 = wmean d := by
+  have R := cons_sum_affine d 0 1 (wmean d)
+  rw [cons_wmean_resid hne hpos] at R
+  rcases hs with hs | hs
+  · have := cons_all_zero_of_sum_zero (fun o => o.1 - wmean d) hpos
+      (fun o ho => by have := hs o ho; show 0 ≤ o.1 - wmean d; linarith)
+      (by
+        rw [← R.trans (by ring : (0 : ℝ) * wsum d + 1 * 0 = 0)]
+        congr 1; apply List.map_congr_left; intro o _; ring)
+    intro o ho
+    have := this o ho
+    linarith
+  · have := cons_all_zero_of_sum_zero (fun o => wmean d - o.1) hpos
+      (fun o ho => by have := hs o ho; show 0 ≤ wmean d - o.1; linarith)
+      (by
+        have e : (d.map (fun o => o.2 * (wmean d - o.1))).sum
+            = - (d.map (fun o => o.2 * (0 + 1 * (o.1 - wmean d)))).sum := by
+          rw [← sum_map_neg']
+          rw [List.map_map]
+          congr 1; apply List.map_congr_left; intro o _; simp only [Function.comp]; ring
+        rw [e, R]; ring)
+    intro o ho
+    have := this o ho
+    linarith
+
+theorem cons_wmean_mem_unit {d : List (Obs ℝ)} (hne : d ≠ []) (hpos : ∀ o ∈ d, 0 < o.2)
+    (hy : ∀ o ∈ d, 0 ≤ o.1 ∧ o.1 ≤ 1) : 0 ≤ wmean d ∧ wmean d ≤ 1 := by
+  have hW := wsum_pos hne hpos
+  have R0 := cons_sum_affine d 0 1 0
+  have R1 := cons_sum_affine d 0 1 1
+  have a := cons_sum_wf_nonneg (fun o => 0 + 1 * (o.1 - 0)) hpos
+    (fun o ho => by have := (hy o ho).1; show 0 ≤ 0 + 1 * (o.1 - 0); linarith)
+  have b := cons_sum_wf_nonneg (fun o => -(0 + 1 * (o.1 - 1))) hpos
+    (fun o ho => by have := (hy o ho).2; show 0 ≤ -(0 + 1 * (o.1 - 1)); linarith)
+  have e : (d.map (fun o => o.2 * -(0 + 1 * (o.1 - 1)))).sum
+      = - (d.map (fun o => o.2 * (0 + 1 * (o.1 - 1)))).sum := by
+    rw [← sum_map_neg', List.map_map]
+    congr 1; apply List.map_congr_left; intro o _; simp only [Function.comp]; ring
+  rw [e, R1] at b
+  rw [R0] at a
+  rw [wmean]
+  constructor
+  · apply div_nonneg _ hW.le; linarith
+  · rw [div_le_one hW]; linarith
+
+theorem cons_total_of_all_eq (S : ℝ → ℝ → ℝ) {d : List (Obs ℝ)} {m : ℝ}
+    (hall : ∀ o ∈ d, o.1 = m) (c : ℝ) : cons_total S d c = wsum d * S m c := by
+  have e : cons_total S d c = (d.map (fun o => o.2 * S m c)).sum := by
+    unfold cons_total
+    congr 1; apply List.map_congr_left; intro o ho; rw [hall o ho]
+  rw [e, sum_map_mul_const (fun o => o.2) (S m c) d]
+  rfl
+
+theorem cons_wmean_of_all_eq {d : List (Obs ℝ)} (hne : d ≠ []) (hpos : ∀ o ∈ d, 0 < o.2) {m : ℝ}
+    (hall : ∀ o ∈ d, o.1 = m) : wmean d = m := by
+  have hW := wsum_pos hne hpos
+  have R := cons_sum_affine d 0 1 m
+  have z : (d.map (fun o => o.2 * (0 + 1 * (o.1 - m)))).sum = 0 := by
+    apply List.sum_eq_zero
+    intro x hx
+    obtain ⟨o, ho, rfl⟩ := List.mem_map.1 hx
+    rw [hall o ho]; ring
+  rw [z] at R
+  rw [wmean, div_eq_iff hW.ne']
+  linarith
+
+/-- the log-loss decomposition for every sample with `y ∈ [0,1]` (the mean may be `0` or `1`) -/
+theorem cons_logloss_identity_all {d : List (Obs ℝ)} (hne : d ≠ []) (hpos : ∀ o ∈ d, 0 < o.2)
+    (hy : ∀ o ∈ d, 0 ≤ o.1 ∧ o.1 ≤ 1) (c : ℝ) (hc0 : 0 < c) (hc1 : c < 1) :
+    cons_total logLoss d c = cons_total logLoss d (wmean d) + wsum d * logLoss (wmean d) c := by
+  obtain ⟨m0, m1⟩ := cons_wmean_mem_unit hne hpos hy
+  have hzero : (∀ o ∈ d, o.1 = wmean d) →
+      cons_total logLoss d c
+        = cons_total logLoss d (wmean d) + wsum d * logLoss (wmean d) c := by
+    intro hall
+    rw [cons_total_of_all_eq logLoss hall c, cons_total_of_all_eq logLoss hall (wmean d)]
+    have : logLoss (wmean d) (wmean d) = 0 := by rw [logLoss_real]; ring
+    rw [this]; ring
+  rcases eq_or_lt_of_le m0 with e0 | l0
+  · exact hzero (cons_all_eq_mean_of_sign hne hpos
+      (Or.inl (fun o ho => by rw [← e0]; exact (hy o ho).1)))
+  rcases eq_or_lt_of_le m1 with e1 | l1
+  · exact hzero (cons_all_eq_mean_of_sign hne hpos
+      (Or.inr (fun o ho => by rw [e1]; exact (hy o ho).2)))
+  exact cons_logloss_identity hne hpos c l0 l1 hc0 hc1
+
+/-- log loss, all samples with `y ∈ [0,1]`: the weighted mean (which may be `0` or `1`) is never
+worse than a forecast `c ∈ (0,1)` -/
+theorem cons_logloss_consistent_all {d : List (Obs ℝ)} (hne : d ≠ []) (hpos : ∀ o ∈ d, 0 < o.2)
+    (hy : ∀ o ∈ d, 0 ≤ o.1 ∧ o.1 ≤ 1) (c : ℝ) (hc0 : 0 < c) (hc1 : c < 1) :
+    cons_total logLoss d (wmean d) ≤ cons_total logLoss d c := by
+  obtain ⟨m0, m1⟩ := cons_wmean_mem_unit hne hpos hy
+  rw [cons_logloss_identity_all hne hpos hy c hc0 hc1]
+  have := mul_nonneg (wsum_pos hne hpos).le (cons_logLoss_nonneg m0 m1 hc0 hc1)
+  linarith
+
+theorem cons_logloss_better_all {d : List (Obs ℝ)} (hne : d ≠ []) (hpos : ∀ o ∈ d, 0 < o.2)
+    (hy : ∀ o ∈ d, 0 ≤ o.1 ∧ o.1 ≤ 1) (c₁ c₂ : ℝ) (h10 : 0 < c₁) (h11 : c₁ < 1)
+    (h20 : 0 < c₂) (h21 : c₂ < 1)
+    (hord : (wmean d ≤ c₁ ∧ c₁ ≤ c₂) ∨ (c₂ ≤ c₁ ∧ c₁ ≤ wmean d)) :
+    cons_total logLoss d c₁ ≤ cons_total logLoss d c₂ := by
+  obtain ⟨m0, m1⟩ := cons_wmean_mem_unit hne hpos hy
+  rw [cons_logloss_identity_all hne hpos hy c₁ h10 h11,
+    cons_logloss_identity_all hne hpos hy c₂ h20 h21]
+  have m : logLoss (wmean d) c₁ ≤ logLoss (wmean d) c₂ := by
+    apply logLoss_mono m0 m1 h10 h11 h20 h21
+    rcases hord with ⟨a, b⟩ | ⟨a, b⟩
+    · exact mul_nonneg (by linarith) (by linarith)
+    · exact mul_nonneg_of_nonpos_of_nonpos (by linarith) (by linarith)
+  have := mul_le_mul_of_nonneg_left m (wsum_pos hne hpos).le
+  linarith
+
+/-! ### all scoring functions of the library at once -/
+
+/-- the pairs (and level) a library scoring function accepts; for the log loss (no check in the
+code): the range on which the real model agrees with numpy, i.e. `y ∈ [0,1]` and either
+`z ∈ (0,1)` or the perfect boundary forecasts `y = z ∈ {0, 1}` -/
+def scoreDom (k : ScoreKind) (h α y z : ℝ) : Prop :=
+  match k with
+  | .hes => (0 < α ∧ α < 1) ∧ hesDom h y z
+  | .hqs => (0 < α ∧ α < 1) ∧ hqsDom h y z
+  | .logloss => (0 ≤ y ∧ y ≤ 1) ∧ ((0 < z ∧ z < 1) ∨ y = z)
+  | .squaredError => True
+  | .poisson => 0 ≤ y ∧ 0 < z
+  | .gamma => 0 < y ∧ 0 < z
+  | .pinball => 0 < α ∧ α < 1
+
+/-- the real value of a library scoring function on its domain -/
+noncomputable def scoreVal (k : ScoreKind) (h α y z : ℝ) : ℝ :=
+  match k with
+  | .hes => hesVal h α y z
+  | .hqs => hqsVal h α y z
+  | .logloss => logLoss y z
+  | .squaredError => hesVal 2 (1 / 2) y z
+  | .poisson => hesVal 1 (1 / 2) y z
+  | .gamma => hesVal 0 (1 / 2) y z
+  | .pinball => hqsVal 1 α y z
+
+/-- `t` is (a version of) the target functional of the scoring function on the sample `d` -/
+def isTarget (k : ScoreKind) (α : ℝ) (d : List (Obs ℝ)) (t : ℝ) : Prop :=
+  match k with
+  | .hes => t = expectile α d
+  | .hqs | .pinball =>
+    (d.map (fun o => o.2 * ((if o.1 < t then (1 : ℝ) else 0) - α))).sum ≤ 0 ∧
+    0 ≤ (d.map (fun o => o.2 * ((if o.1 ≤ t then (1 : ℝ) else 0) - α))).sum
+  | .logloss | .squaredError | .poisson | .gamma => t = wmean d
+
+theorem cons_hesDom_two (y z : ℝ) : hesDom 2 y z := by
+  unfold hesDom; rw [if_pos (by norm_num)]; trivial
+
+theorem cons_hesDom_one {y z : ℝ} : hesDom 1 y z ↔ 0 ≤ y ∧ 0 < z := by
+  unfold hesDom; rw [if_neg (lt_irrefl _), if_pos one_pos]
+
+theorem cons_hesDom_zero {y z : ℝ} : hesDom 0 y z ↔ 0 < y ∧ 0 < z := by
+  unfold hesDom; rw [if_neg (by norm_num), if_neg (lt_irrefl _)]
+
+theorem cons_scorePair_ok {k : ScoreKind} {h α y z : ℝ} (d : scoreDom k h α y z) :
+    scorePair k h α y z = .ok (scoreVal k h α y z) := by
+  cases k with
+  | hes =>
+    show (if levelOk α then hes h α y z else throw Err.valueError) = _
+    rw [if_pos (show levelOk α from d.1)]; exact cons_hes_ok d.2
+  | hqs =>
+    show (if levelOk α then hqs h α y z else throw Err.valueError) = _
+    rw [if_pos (show levelOk α from d.1)]; exact hqs_closed' d.2
+  | logloss => rfl
+  | squaredError =>
+    show hes two half y z = _
+    rw [two_real, half_real]; exact cons_hes_ok (cons_hesDom_two y z)
+  | poisson =>
+    show hes 1 half y z = _
+    rw [half_real]; exact cons_hes_ok (cons_hesDom_one.2 d)
+  | gamma =>
+    show hes 0 half y z = _
+    rw [half_real]; exact cons_hes_ok (cons_hesDom_zero.2 d)
+  | pinball =>
+    show (if levelOk α then hqs 1 α y z else throw Err.valueError) = _
+    rw [if_pos (show levelOk α from d)]; exact hqs_closed' (Or.inl rfl)
+
+/-- consistency of every library score for its target functional, weighted totals -/
+theorem cons_consistent_total (k : ScoreKind) (h α : ℝ) {d : List (Obs ℝ)} (hne : d ≠ [])
+    (hpos : ∀ o ∈ d, 0 < o.2) (t c : ℝ) (ht : isTarget k α d t)
+    (dt : ∀ o ∈ d, scoreDom k h α o.1 t) (dc : ∀ o ∈ d, scoreDom k h α o.1 c) :
+    cons_total (scoreVal k h α) d t ≤ cons_total (scoreVal k h α) d c := by
+  obtain ⟨o₀, ho₀⟩ := List.exists_mem_of_ne_nil d hne
+  have hw : ∀ o ∈ d, 0 ≤ o.2 := fun o ho => (hpos o ho).le
+  cases k with
+  | hes =>
+    have hα := (dt o₀ ho₀).1
+    have ht' : t = expectile α d := ht
+    subst ht'
+    exact cons_expectile_consistent hα.1 hα.2 hne hpos c (fun o ho => (dt o ho).2)
+      (fun o ho => (dc o ho).2)
+  | hqs =>
+    exact cons_quantile_consistent d hw (fun o ho => (dt o ho).2) (fun o ho => (dc o ho).2)
+      ht.1 ht.2
+  | logloss =>
+    have ht' : t = wmean d := ht
+    subst ht'
+    by_cases hc : 0 < c ∧ c < 1
+    · exact cons_logloss_consistent_all hne hpos (fun o ho => (dc o ho).1) c hc.1 hc.2
+    · have hall : ∀ o ∈ d, o.1 = c := fun o ho => ((dc o ho).2).resolve_left hc
+      rw [cons_wmean_of_all_eq hne hpos hall]
+  | squaredError =>
+    have ht' : t = wmean d := ht
+    subst ht'
+    exact cons_mean_consistent 2 hne hpos c (fun o _ => cons_hesDom_two _ _)
+      (fun o _ => cons_hesDom_two _ _)
+  | poisson =>
+    have ht' : t = wmean d := ht
+    subst ht'
+    exact cons_mean_consistent 1 hne hpos c (fun o ho => cons_hesDom_one.2 (dt o ho))
+      (fun o ho => cons_hesDom_one.2 (dc o ho))
+  | gamma =>
+    have ht' : t = wmean d := ht
+    subst ht'
+    exact cons_mean_consistent 0 hne hpos c (fun o ho => cons_hesDom_zero.2 (dt o ho))
+      (fun o ho => cons_hesDom_zero.2 (dc o ho))
+  | pinball =>
+    exact cons_quantile_consistent d hw (fun o _ => Or.inl rfl) (fun o _ => Or.inl rfl)
+      ht.1 ht.2
+
+/-- … and through `scoreMean` (the `__call__` of the scoring classes) -/
+theorem cons_consistent_scoreMean (k : ScoreKind) (h α : ℝ) (ys ws : List ℝ) (t c : ℝ)
+    (hne : ys ≠ []) (hw : ws.length = ys.length) (hpos : ∀ w ∈ ws, 0 < w)
+    (ht : isTarget k α (ys.zip ws) t)
+    (dt : ∀ y ∈ ys, scoreDom k h α y t) (dc : ∀ y ∈ ys, scoreDom k h α y c) :
+    ∃ vt vc, scoreMean k h α ys (List.replicate ys.length t) (some ws) = .ok vt ∧
+      scoreMean k h α ys (List.replicate ys.length c) (some ws) = .ok vc ∧ vt ≤ vc := by
+  apply cons_scoreMean_const_le k h α ys ws (scoreVal k h α) t c hne hw hpos
+    (fun y hy => cons_scorePair_ok (dt y hy)) (fun y hy => cons_scorePair_ok (dc y hy))
+  exact cons_consistent_total k h α (cons_zip_ne hne hw) (cons_zip_pos (ys := ys) hpos) t c ht
+    (fun o ho => dt _ (List.of_mem_zip ho).1) (fun o ho => dc _ (List.of_mem_zip ho).1)
+
+/-- unweighted call (`weights=None`) -/
+theorem cons_consistent_scoreMean_none (k : ScoreKind) (h α : ℝ) (ys : List ℝ) (t c : ℝ)
+    (hne : ys ≠ []) (ht : isTarget k α (ys.zip (List.replicate ys.length 1)) t)
+    (dt : ∀ y ∈ ys, scoreDom k h α y t) (dc : ∀ y ∈ ys, scoreDom k h α y c) :
+    ∃ vt vc, scoreMean k h α ys (List.replicate ys.length t) none = .ok vt ∧
+      scoreMean k h α ys (List.replicate ys.length c) none = .ok vc ∧ vt ≤ vc := by
+  rw [cons_scoreMean_none, cons_scoreMean_none]
+  exact cons_consistent_scoreMean k h α ys _ t c hne (by simp)
+    (fun w hw => by rw [List.eq_of_mem_replicate hw]; exact one_pos) ht dt dc
+
+
+/-- order sensitivity on the sample level ("a better forecast is never scored worse"): a constant
+forecast between the target functional and another constant forecast has a total score not larger
+than the latter -/
+theorem cons_better_total (k : ScoreKind) (h α : ℝ) {d : List (Obs ℝ)} (hne : d ≠ [])
+    (hpos : ∀ o ∈ d, 0 < o.2) (t c₁ c₂ : ℝ) (ht : isTarget k α d t)
+    (dt : ∀ o ∈ d, scoreDom k h α o.1 t)
+    (d1 : ∀ o ∈ d, scoreDom k h α o.1 c₁) (d2 : ∀ o ∈ d, scoreDom k h α o.1 c₂)
+    (hord : (t ≤ c₁ ∧ c₁ ≤ c₂) ∨ (c₂ ≤ c₁ ∧ c₁ ≤ t)) :
+    cons_total (scoreVal k h α) d c₁ ≤ cons_total (scoreVal k h α) d c₂ := by
+  obtain ⟨o₀, ho₀⟩ := List.exists_mem_of_ne_nil d hne
+  have hw : ∀ o ∈ d, 0 ≤ o.2 := fun o ho => (hpos o ho).le
+  cases k with
+  | hes =>
+    have hα := (dt o₀ ho₀).1
+    have ht' : t = expectile α d := ht
+    subst ht'
+    exact cons_expectile_better hα.1 hα.2 hne hpos (fun o ho => (d1 o ho).2)
+      (fun o ho => (d2 o ho).2) hord
+  | hqs =>
+    exact cons_quantile_better d hw (fun o ho => (d1 o ho).2) (fun o ho => (d2 o ho).2)
+      ht.1 ht.2 hord
+  | logloss =>
+    have ht' : t = wmean d := ht
+    subst ht'
+    have hy : ∀ o ∈ d, 0 ≤ o.1 ∧ o.1 ≤ 1 := fun o ho => (d1 o ho).1
+    by_cases h2 : 0 < c₂ ∧ c₂ < 1
+    · by_cases h1 : 0 < c₁ ∧ c₁ < 1
+      · exact cons_logloss_better_all hne hpos hy c₁ c₂ h1.1 h1.2 h2.1 h2.2 hord
+      · have hall : ∀ o ∈ d, o.1 = c₁ := fun o ho => ((d1 o ho).2).resolve_left h1
+        rw [← cons_wmean_of_all_eq hne hpos hall]
+        exact cons_logloss_consistent_all hne hpos hy c₂ h2.1 h2.2
+    · have hall : ∀ o ∈ d, o.1 = c₂ := fun o ho => ((d2 o ho).2).resolve_left h2
+      have hm := cons_wmean_of_all_eq hne hpos hall
+      have : c₁ = c₂ := by
+        rcases hord with ⟨a, b⟩ | ⟨a, b⟩ <;> linarith
+      rw [this]
+  | squaredError =>
+    have ht' : t = wmean d := ht
+    subst ht'
+    exact cons_mean_better hne hpos (fun o _ => cons_hesDom_two _ _)
+      (fun o _ => cons_hesDom_two _ _) hord
+  | poisson =>
+    have ht' : t = wmean d := ht
+    subst ht'
+    exact cons_mean_better hne hpos (fun o ho => cons_hesDom_one.2 (d1 o ho))
+      (fun o ho => cons_hesDom_one.2 (d2 o ho)) hord
+  | gamma =>
+    have ht' : t = wmean d := ht
+    subst ht'
+    exact cons_mean_better hne hpos (fun o ho => cons_hesDom_zero.2 (d1 o ho))
+      (fun o ho => cons_hesDom_zero.2 (d2 o ho)) hord
+  | pinball =>
+    exact cons_quantile_better d hw (fun o _ => Or.inl rfl) (fun o _ => Or.inl rfl)
+      ht.1 ht.2 hord
+
+theorem cons_better_scoreMean (k : ScoreKind) (h α : ℝ) (ys ws : List ℝ) (t c₁ c₂ : ℝ)
+    (hne : ys ≠ []) (hw : ws.length = ys.length) (hpos : ∀ w ∈ ws, 0 < w)
+    (ht : isTarget k α (ys.zip ws) t) (dt : ∀ y ∈ ys, scoreDom k h α y t)
+    (d1 : ∀ y ∈ ys, scoreDom k h α y c₁) (d2 : ∀ y ∈ ys, scoreDom k h α y c₂)
+    (hord : (t ≤ c₁ ∧ c₁ ≤ c₂) ∨ (c₂ ≤ c₁ ∧ c₁ ≤ t)) :
+    ∃ v₁ v₂, scoreMean k h α ys (List.replicate ys.length c₁) (some ws) = .ok v₁ ∧
+      scoreMean k h α ys (List.replicate ys.length c₂) (some ws) = .ok v₂ ∧ v₁ ≤ v₂ := by
+  apply cons_scoreMean_const_le k h α ys ws (scoreVal k h α) c₁ c₂ hne hw hpos
+    (fun y hy => cons_scorePair_ok (d1 y hy)) (fun y hy => cons_scorePair_ok (d2 y hy))
+  exact cons_better_total k h α (cons_zip_ne hne hw) (cons_zip_pos (ys := ys) hpos) t c₁ c₂ ht
+    (fun o ho => dt _ (List.of_mem_zip ho).1)
+    (fun o ho => d1 _ (List.of_mem_zip ho).1) (fun o ho => d2 _ (List.of_mem_zip ho).1) hord
+
+/-! ### explicit values at level `1/2` -/
+
+theorem cons_hesVal_half_base {h y z : ℝ} (d : hesDom h y z) :
+    hesVal h (1 / 2) y z = hesBase h y z := by
+  rw [cons_hesVal_half, hesBase_eq_breg d]
+
+theorem cons_hesVal_two (y z : ℝ) : hesVal 2 (1 / 2) y z = (z - y) ^ 2 := by
+  rw [cons_hesVal_half_base (cons_hesDom_two y z)]
+  unfold hesBase; rw [if_pos rfl]; ring
+
+theorem cons_hesVal_one {y z : ℝ} (hy : 0 ≤ y) (hz : 0 < z) :
+    hesVal 1 (1 / 2) y z = 2 * (xlogy y (y / z) - y + z) := by
+  rw [cons_hesVal_half_base (cons_hesDom_one.2 ⟨hy, hz⟩)]
+  unfold hesBase
+  rw [if_neg (by norm_num), if_neg (lt_irrefl _), if_pos rfl]
+
+theorem cons_hesVal_zero {y z : ℝ} (hy : 0 < y) (hz : 0 < z) :
+    hesVal 0 (1 / 2) y z = 2 * (y / z - Real.log (y / z) - 1) := by
+  rw [cons_hesVal_half_base (cons_hesDom_zero.2 ⟨hy, hz⟩)]
+  unfold hesBase
+  rw [if_neg (by norm_num), if_neg (by norm_num), if_neg (by norm_num), if_pos rfl]
+
+theorem cons_hqsVal_one (α y z : ℝ) : hqsVal 1 α y z = (geInd z y - α) * (z - y) := by
+  simp [hqsVal]
+
+/-- rewriting the summands of a total on the sample -/
+theorem cons_total_congr {S S' : ℝ → ℝ → ℝ} {d : List (Obs ℝ)} {z : ℝ}
+    (e : ∀ o ∈ d, S o.1 z = S' o.1 z) : cons_total S d z = cons_total S' d z := by
+  unfold cons_total
+  congr 1
+  apply List.map_congr_left
+  intro o ho
+  rw [e o ho]
+
+theorem cons_hesDom_of_pos (h : ℝ) {y z : ℝ} (hy : 0 < y) (hz : 0 < z) : hesDom h y z := by
+  unfold hesDom
+  split_ifs
+  · exact ⟨hy.le, hz⟩
+  · exact ⟨hy, hz⟩
+
+theorem cons_hesVal_eq_base {h y z : ℝ} (α : ℝ) (d : hesDom h y z) :
+    hesVal h α y z = hesAsym α y z * hesBase h y z := by
+  rw [hesVal, hesBase_eq_breg d]
 
 end MD
